@@ -281,12 +281,17 @@ def build_parser(spec, top=True):
         p.add_argument("--cfg", action="config")
     types = {"int": int, "str": str, "any": Any, "dict": Dict[str, int]}
     for a in spec.get("args", []):
+        if a["type"] == "flag":     # --name / --no_name
+            from jsonargparse import ActionYesNo
+
+            p.add_argument("--" + a["name"], *a.get("aliases", []), action=ActionYesNo, default=bool(a.get("default")))
+            continue
         k = {"type": types[a["type"]]} if a["type"] != "untyped" else {}
         if a.get("required"):
             k["required"] = True
         else:
             k["default"] = copy.deepcopy(a.get("default"))
-        p.add_argument("--" + a["name"], **k)
+        p.add_argument("--" + a["name"], *a.get("aliases", []), **k)
     for g in spec.get("groups", []):
         style, cls, fields, dflts = GROUPS[g]
         if style == "class":
@@ -297,7 +302,10 @@ def build_parser(spec, top=True):
             for f, dv in zip(fields, dflts):
                 p.add_argument("--%s.%s" % (g, f), type=int, default=dv)
     for s in spec.get("subclass", []):
-        k = {"type": getattr(m, s.get("cls", "Base"))}
+        from typing import Optional, Union
+
+        cls = getattr(m, s.get("cls", "Base"))
+        k = {"type": {"bool": Union[bool, cls], "str": Union[str, cls], "optional": Optional[cls]}.get(s.get("union"), cls)}
         if s.get("required"):
             k["required"] = True
         elif s.get("default"):
@@ -784,7 +792,14 @@ def oracle(case, deep=True):
                 continue
             ttype = next((a["type"] for a in lspec.get("args", []) if a["name"] == l["target"]), "int")
             val = {"int": "3", "str": "v", "any": "3", "dict": "{}", "untyped": "3"}.get(ttype, "3")
-            for form in (["--%s=%s" % (l["target"], val)], ["--" + l["target"], val]):
+            adef = next((a for a in lspec.get("args", []) if a["name"] == l["target"]), {})
+            forms = [["--%s=%s" % (l["target"], val)], ["--" + l["target"], val]]
+            for al in adef.get("aliases", []):
+                forms += [[al, val]] + ([["%s=%s" % (al, val)]] if al.startswith("--") else [])
+            if ttype == "flag":
+                val = "true"
+                forms = [["--" + l["target"]], ["--no_" + l["target"]], ["--%s=true" % l["target"]], ["--no_%s=false" % l["target"]]]
+            for form in forms:
                 try:
                     got = p.parse_args(pre + form)
                     fail("the option of link target %s is accepted: parse_args(%s) = %r" % (l["target"], pre + form, got))
@@ -819,6 +834,12 @@ def gen_spec(rng, allow_sub=True, top=True):
             spec["args"].append({"name": n, "type": "int", "default": None})
         else:
             spec["args"].append({"name": n, "type": "int", "default": rng.randint(-3, 9)})
+    for a in spec["args"]:      # other option strings of the same argument
+        if rng.random() < 0.3:
+            a["aliases"] = rng.sample(["-" + a["name"].upper(), "--%s_long" % a["name"], "--%s%s" % (a["name"], a["name"])], rng.randint(1, 2))
+    if rng.random() < 0.3:
+        spec["args"].append({"name": "f1", "type": "flag", "default": rng.random() < 0.5})
+        spec["args"].append({"name": "f2", "type": "flag", "default": rng.random() < 0.5})
     if rng.random() < 0.45:
         spec["args"].append({"name": "s", "type": "str", "default": rng.choice(["x", "abc", "Hi there", ""])})
         spec["args"].append({"name": "u", "type": "str", "default": rng.choice([None, "u0"])})
@@ -837,6 +858,8 @@ def gen_spec(rng, allow_sub=True, top=True):
             s["required"] = True
         elif r < 0.4:
             s["default"] = rng.choice(["SubA", "SubB", "SubC"])
+        if rng.random() < 0.4:      # a class inside a (mixed) union
+            s["union"] = rng.choice(["bool", "str", "optional"])
         spec["subclass"].append(s)
         if rng.random() < 0.35:
             spec["subclass"].append({"name": "opt2", "default": rng.choice([None, "SubB"])})
@@ -914,6 +937,8 @@ def gen_link(rng, spec):
             return False
         return True
 
+    if "f1" in types and "f2" not in ptargets + psources and "f1" not in ptargets and rng.random() < 0.5:
+        return {"sources": ["f1"], "target": "f2", "fn": rng.choice([None, "id"]), "single_str": single_str}
     cands = []
     for t in ints + init_targets:
         if ok_target(t):
@@ -985,6 +1010,8 @@ def gen_value(rng, ty):
         return rng.randint(-5, 60)
     if ty == "str":
         return rng.choice(WORDS)
+    if ty == "flag":
+        return rng.random() < 0.5
     if ty == "any":
         return rng.choice([1, 7, 12])
     return {"k": rng.randint(0, 5)}
@@ -1129,6 +1156,11 @@ def gen_case(rng, spec):
         if ch == "argv":
             sv = v if isinstance(v, str) else json.dumps(v)
             toks = ["--%s=%s" % (k, sv)] if rng.random() < 0.7 else ["--" + k, sv]
+            al = next((a.get("aliases") for a in lspec.get("args", []) if a["name"] == k), None)
+            if al and rng.random() < 0.5:
+                toks = [rng.choice(al), sv]
+            if ty == "flag":
+                toks = ["--" + k] if v else ["--no_" + k]
             argv_items.append((toks, k, v))
         elif ch == "cfgopt":
             set_in(cfgopt, k, v)
@@ -1146,7 +1178,9 @@ def gen_case(rng, spec):
             if entry == "args":
                 n = rng.choice([1, 1, 2])
                 for i in range(n):
-                    cs = class_spec(rng, short=True)
+                    cs = class_spec(rng, short=s.get("union") != "str")
+                    if s.get("union") == "str" and isinstance(cs, str):
+                        cs = {"class_path": cs}
                     argv_items.append((["--%s=%s" % (name, cs if isinstance(cs, str) else json.dumps(cs))], None, None))
                     if rng.random() < 0.4:
                         form = rng.choice(["--%s.init_args.k=%d", "--%s.k=%d"])
@@ -1156,6 +1190,8 @@ def gen_case(rng, spec):
                         argv_items.append(([form % (name, rng.randint(30, 40))], None, "sub-order"))
             elif entry in ("string", "path", "object"):
                 config[name] = class_spec(rng)
+                if s.get("union") == "str" and isinstance(config[name], str):
+                    config[name] = {"class_path": config[name]}
     for s in lspec.get("subclass_list", []):
         if rng.random() < 0.7:
             name = s["name"]
@@ -1239,16 +1275,35 @@ def real_actions(parser):
     for a in filter_default_actions(parser._actions):
         if isinstance(a, (_ActionConfigLoad, _ActionSubCommands, ActionConfigFile)):
             continue
-        if isinstance(a, ActionLink):
-            kind = "link"
-        elif ActionTypeHint.is_subclass_typehint(a):
-            kind = "subclass"
-        elif ActionTypeHint.is_subclass_typehint(a, all_subtypes=False, also_lists=True):
-            kind = "subclassL"
-        else:
-            kind = "arg"
-        out.append([a.dest, kind])
+        out.append([a.dest, action_kind(a)])
     return out
+
+
+def action_kind(a):
+    from jsonargparse._link_arguments import ActionLink
+    from jsonargparse._typehints import ActionTypeHint
+
+    if isinstance(a, ActionLink):
+        return "link"
+    if ActionTypeHint.is_subclass_typehint(a):
+        return "subclass"
+    if ActionTypeHint.is_subclass_typehint(a, all_subtypes=False, also_lists=True):
+        return "subclassL"
+    return "arg"
+
+
+def real_options(parser):
+    """parser._option_string_actions as the model's table: every option string with the action it reaches"""
+    import argparse
+
+    from jsonargparse._actions import ActionConfigFile, _ActionConfigLoad, _ActionPrintConfig, _ActionSubCommands
+
+    out = []
+    for o, a in parser._option_string_actions.items():
+        if isinstance(a, (_ActionConfigLoad, _ActionSubCommands, ActionConfigFile, _ActionPrintConfig, argparse._HelpAction)):
+            continue
+        out.append([o, a.dest, action_kind(a)])
+    return sorted(out)
 
 
 def real_parser_state(parser):
@@ -1262,11 +1317,11 @@ def real_parser_state(parser):
             continue
         kind = "plain" if any(x is a for x in parser._actions) else "initArg:" + a.target[1].dest
         links.append([a.target[0], kind, [bool(ActionTypeHint.is_subclass_typehint(s[1][0])) for s in a.source]])
-    return {"actions": real_actions(parser), "required": sorted(parser.required_args), "links": links}
+    return {"actions": real_actions(parser), "required": sorted(parser.required_args), "links": links, "opts": real_options(parser)}
 
 
 def norm_state(st):
-    return {"actions": st["actions"], "required": sorted(st["required"]), "links": st["links"]}
+    return {"actions": st["actions"], "required": sorted(st["required"]), "links": st["links"], "opts": sorted(st.get("opts", []))}
 
 
 def is_flat(spec):
@@ -1304,7 +1359,7 @@ def model_lines(case, real):
     p0, sp0 = build_parser(spec)
     base = sp0 if sp0 is not None else p0
     st0 = real_parser_state(base)
-    lines.append({"op": "new", "actions": st0["actions"], "required": st0["required"]})
+    lines.append({"op": "new", "actions": st0["actions"], "required": st0["required"], "opts": st0["opts"]})
     expect.append(("K1-new", norm_state(st0)))
     rep = add_links(base, lspec.get("links", []), observer)
     for l, r, st in zip(lspec.get("links", []), rep, states):
@@ -1356,7 +1411,8 @@ def model_lines(case, real):
 def real_tree_json(p):
     """a real parser with its subcommand parsers as the model's tree"""
     st = real_parser_state(p)
-    node = {"actions": st["actions"], "required": st["required"], "group": hasattr(p, "_links_group"), "dest": "", "subreq": False, "choices": []}
+    node = {"actions": st["actions"], "required": st["required"], "opts": st["opts"], "group": hasattr(p, "_links_group"), "dest": "",
+            "subreq": False, "choices": []}
     act = getattr(p, "_subcommands_action", None)
     if act is not None:
         node["dest"] = act.dest
